@@ -46,6 +46,28 @@ def decFirst (v : V) : Option FirstExt :=
   | .atom _ => some .invalid | _ => none
 def encPairLists {α β} (f : α → V) (g : β → V) (p : List α × List β) : V := .list [encList f p.1, encList g p.2]
 
+def encRow (r : SampleRow) : V :=
+  .list [encInt r.peak, encInt r.lastZeroxDecay, encInt r.zeroxDecay, encInt r.zeroxRise, encInt r.lastTrough, encInt r.nextTrough]
+def decRow (v : V) : Option SampleRow :=
+  match v with
+  | .list [a, b, c, d, e, f] => do
+      let a ← a.int?; let b ← b.int?; let c ← c.int?; let d ← d.int?; let e ← e.int?; let f ← f.int?
+      pure ⟨a, b, c, d, e, f⟩
+  | _ => none
+
+def encShape (r : ShapeRow) : V :=
+  .list [encInt r.period, encInt r.timePeak, encInt r.timeTrough, encRat r.voltPeak, encRat r.voltTrough, encInt r.timeDecay,
+         encInt r.timeRise, encRat r.voltDecay, encRat r.voltRise, encRat r.voltAmp, encF r.timeRdsym, encF r.timePtsym, encF r.bandAmp]
+def decCentre (v : V) : Option Centre :=
+  match v with | .atom "peak" => some .peak | .atom "trough" => some .trough | _ => none
+def decDir (v : V) : Option Direction :=
+  match v with | .atom "both" => some .both | .atom "next" => some .next | .atom "last" => some .last | _ => none
+def decTriple (v : V) : Option (Int × Int × Int) :=
+  match v with
+  | .list [a, b, c] => do let a ← a.int?; let b ← b.int?; let c ← c.int?; pure (a, b, c)
+  | _ => none
+def tOfRow (r : SampleRow) : TSampleRow := ⟨r.peak, r.lastZeroxDecay, r.zeroxDecay, r.zeroxRise, r.lastTrough, r.nextTrough⟩
+
 def handle (args : List V) : V :=
   match args with
   | [.atom "ping"] => .atom "pong"
@@ -144,6 +166,61 @@ def handle (args : List V) : V :=
       if (risingX b).isEmpty || (decayingX b).isEmpty then .atom "no-crossings"
       else encExcept (encPairLists encInt encInt) (findExtremaSpec sig pad b bd fe)
     | _, _, _, _, _ => bad "extrema.spec"
+  -- C01
+  | [.atom "cyclepoints.model", sig, pad, b, bd] =>
+    match sig.listOf? V.rat?, pad.nat?, b.bits?, bd.int? with
+    | some sig, some pad, some b, some bd => encExcept (encList encRow) (computeCyclepoints sig pad b bd)
+    | _, _, _, _ => bad "cyclepoints.model"
+  | [.atom "cyclepoints.wf", rows, n, bd] =>
+    match rows.listOf? decRow, n.nat?, bd.int? with
+    | some rows, some n, some bd => encBool (decide (wellFormed rows n bd))
+    | _, _, _ => bad "cyclepoints.wf"
+  -- C04: rows arrive in the peak-centred field order (peak, lastZeroxDecay, zeroxDecay, zeroxRise, lastTrough, nextTrough)
+  | [.atom "shape.model", c, sig, amp, rows] =>
+    match decCentre c, sig.listOf? V.rat?, amp.listOf? V.rat?, rows.listOf? decRow with
+    | some c, some sig, some amp, some rows => encExcept (encList encShape) (shapeFeatures c sig amp rows)
+    | _, _, _, _ => bad "shape.model"
+  -- spec: original signal; for trough centring the six numbers are the trough-centred columns
+  -- (trough, lastZeroxRise, zeroxRise, zeroxDecay, lastPeak, nextPeak)
+  | [.atom "shape.spec", c, x, amp, rows] =>
+    match decCentre c, x.listOf? V.rat?, amp.listOf? V.rat?, rows.listOf? decRow with
+    | some .peak, some x, some amp, some rows => encList encShape (rows.map (shapeSpecPeak x amp))
+    | some .trough, some x, some amp, some rows => encList encShape (rows.map fun r => shapeSpecTrough x amp (tOfRow r))
+    | _, _, _, _ => bad "shape.spec"
+  -- C05
+  | [.atom "ampfrac.model", va] =>
+    match va.listOf? V.rat? with
+    | some va => encList encRat (ampFraction va)
+    | _ => bad "ampfrac.model"
+  | [.atom "ampcons.model", pc, dir, rises, decays] =>
+    match pc.bool?, decDir dir, rises.listOf? V.rat?, decays.listOf? V.rat? with
+    | some pc, some dir, some r, some d => encExcept (encList encF) (ampConsistency pc dir r d)
+    | _, _, _, _ => bad "ampcons.model"
+  | [.atom "ampcons.spec", pc, rises, decays] =>
+    match pc.bool?, rises.listOf? V.rat?, decays.listOf? V.rat? with
+    | some pc, some r, some d =>
+      let n := r.length
+      if n = 0 then encErr .indexError
+      else .list [.atom "ok", encList encF ((List.range n).map fun c =>
+        if c = 0 ∨ c + 1 = n then F.nan else ampConsSpec (flankSeq pc r d) c)]
+    | _, _, _ => bad "ampcons.spec"
+  | [.atom "percons.model", dir, periods] =>
+    match decDir dir, periods.listOf? V.rat? with
+    | some dir, some p => encExcept (encList encF) (periodConsistency dir p)
+    | _, _ => bad "percons.model"
+  | [.atom "mono.model", pc, sig, rows] =>
+    match pc.bool?, sig.listOf? V.rat?, rows.listOf? decTriple with
+    | some pc, some sig, some rows => encList encF (monotonicity pc sig rows)
+    | _, _, _ => bad "mono.model"
+  | [.atom "mono.spec", pc, sig, rows] =>
+    match pc.bool?, sig.listOf? V.rat?, rows.listOf? decTriple with
+    | some pc, some sig, some rows =>
+      encList encF (rows.map fun (l, c, n) =>
+        let first := slice sig l.toNat (c.toNat + 1)
+        let second := slice sig c.toNat (n.toNat + 1)
+        let (rise, decay) := if pc then (first, second) else (second, first)
+        meanF2 (stepFractionSpec false decay) (stepFractionSpec true rise))
+    | _, _, _ => bad "mono.spec"
   | _ => bad "unknown-command"
 
 partial def loop (hin : IO.FS.Stream) (hout : IO.FS.Stream) : IO Unit := do
